@@ -39,7 +39,7 @@ class C23(Prop):
 
     def strategy(self, tier):
         names = ["s0", "s1", "s2", "s3", "s4", "s5"]
-        ev_in = st.sampled_from(["GStart", "GStart", "StartEvent", "E0", "E1", "E2", "E3", "Reply", "HumanResponseEvent", "GStop", "Ask"])
+        ev_in = st.sampled_from(["GStart", "GStart", "StartEvent", "E0", "E1", "E2", "E3", "Reply", "HumanResponseEvent", "GStop", "StopEvent", "Ask"])
         ev_out = st.sampled_from(["GStop", "GStop", "StopEvent", "E0", "E1", "E2", "E3", "Ask", "InputRequiredEvent", "Reply", "GStart"])
         skip = st.lists(st.sampled_from(["reachability", "dead_end"]), max_size=1)
 
@@ -94,6 +94,11 @@ class C23(Prop):
             elif draw(st.integers(0, 3)) == 0 and len(steps) <= 4 and "E2" not in chain:
                 # an unreachable island that can reach the stop event: valid only if its step waives the reachability check
                 steps.append({"name": names[len(steps)], "role": "step", "accepts": ["E2"], "returns": ["E2", "GStop"], "skip": draw(waive)})
+            if draw(st.integers(0, 5)) == 0 and len(steps) <= 5:
+                # an otherwise reachable step that also accepts a stop event type which is NOT the workflow's own stop class (the base
+                # StopEvent while the workflow produces a subclass): consuming any StopEvent is invalid
+                tgt_ = draw(st.sampled_from([x for x in steps if x["role"] == "step"]))
+                tgt_["accepts"] = list(tgt_["accepts"]) + ["StopEvent"]
             if draw(st.integers(0, 3)) == 0 and len(steps) <= 4:
                 # two scoped handlers, possibly claiming the same step
                 tgt = steps[0]["name"]
